@@ -163,7 +163,7 @@ def process_timers(ctx, prog, viol):
                 interval = 2 * hns if kind == 'Rx' else hns
                 may_expire = z3.UGE(elapsed + 5 * MS, interval)
                 must_expire = z3.UGE(elapsed, interval)
-                items = [i for i in w1.outbuf.items[1:]]
+                items = new_items(w1)
                 out = err_name(prog, rv)
                 if isinstance(rv, Panic):
                     c = [z3.BoolVal(False)]
@@ -172,10 +172,13 @@ def process_timers(ctx, prog, viol):
                     c = [z3.Implies(dead, may_expire), z3.Implies(must_expire, dead), z3.BoolVal(out in ('Ok', 'MissedServerHeartbeats') and len(items) == 0)]
                 else:
                     sent = z3.BoolVal(len(items) == 1 and items[0]['kind'] == 'heartbeat')
-                    c = [z3.BoolVal(out == 'Ok' and len(items) <= 1), z3.Implies(sent, z3.And(may_expire, z3.BoolVal(ob_len == 0))),
-                         z3.Implies(z3.And(must_expire, z3.BoolVal(ob_len == 0)), sent)]
+                    c = [z3.BoolVal(out == 'Ok' and len(items) <= 1), z3.Implies(sent, may_expire),
+                         z3.Implies(z3.And(must_expire, z3.BoolVal(ob_len == 0)), sent), earlier_kept(w1)]
+                    early = [i_ for i_ in w1.outbuf.items if i_.get('kind') == 'earlier']
+                    if len(items) == 1 and early:
+                        c.append(items[0]['pos'] == early[0]['pos'] + early[0]['len'])    # whatever is queued stays whole: a heartbeat can only follow it
                 m = ctx.decide(f"c17.timers[{kind},{'empty' if ob_len == 0 else 'queued'}]#{n}", s.pc, z3.And(*c),
-                               group='rx expiry (2h of silence, 5 ms tolerance) => MissedServerHeartbeats and not earlier; tx expiry (h idle) queues one heartbeat frame iff nothing is queued; otherwise nothing happens',
+                               group='rx expiry (2h of silence, 5 ms tolerance) => MissedServerHeartbeats and not earlier; tx expiry (h idle) queues one heartbeat frame when nothing is queued; what is already queued stays in place, whole; otherwise nothing happens',
                                sample={'kind': kind, 'result': out, 'frames': len(items)})
                 if m is not None:
                     viol.append(('timers', kind, ob_len, out, ctx.explain(m, c)))
@@ -390,6 +393,12 @@ def hb_replay(what):
       if r1 != "Ok" || r2 != "MissedServerHeartbeats" { bad.push(format!("rx-2.4s:{}:{}", r1, r2)); } }
     { let mut i = mk_inner(); i.start_heartbeats(0); sleep_ms(300); let r = res_name(i.process_heartbeat_timers());
       if r != "Ok" || i.outbuf.len() != 0 { bad.push(format!("h0:{}:{}", r, i.outbuf.len())); } }
+    // data is already queued (the socket is not draining): a tx expiry leaves the queued bytes exactly as they are
+    { let mut i = mk_inner(); i.start_heartbeats(1);
+      i.outbuf.push_method(3, amq_protocol::protocol::basic::AMQPMethod::Ack(amq_protocol::protocol::basic::Ack { delivery_tag: 7, multiple: false }));
+      let before: Vec<u8> = (&i.outbuf[0..]).to_vec(); sleep_ms(1300); let r = res_name(i.process_heartbeat_timers());
+      let after: Vec<u8> = (&i.outbuf[0..]).to_vec();
+      if r != "Ok" || after.len() < before.len() || after[..before.len()] != before[..] || (after.len() != before.len() && after.len() != before.len() + heartbeat_bytes()) { bad.push(format!("tx-expiry-with-queued-data:{}:{}->{}", r, before.len(), after.len())); } }
     // a write early in the period: the next heartbeat is due h after that write, not later (the timer is re-armed for the remainder)
     { let mut i = mk_inner(); i.start_heartbeats(1); sleep_ms(100); i.outbuf.push_heartbeat(); let mut s = VS { data: vec![], pos: 0 };
       let wr = res_name(i.write_to_stream(&mut s)); sleep_ms(950); let r1 = res_name(i.process_heartbeat_timers()); let l1 = i.outbuf.len();
